@@ -157,7 +157,17 @@ pub fn specs() -> Vec<MSpec> {
     let mut pc4 = recs("pcsaft/gross2006.json", &["acetone"]);
     pc4.extend(recs("pcsaft/gross2005_fit.json", &["carbon dioxide"]));
     pc4.extend(recs("pcsaft/gross2002.json", &["methanol", "ethanol"]));
+    // two dipolar and two quadrupolar components of different size (cross terms of every polar contribution, both DQ variants)
+    let mut polar4 = recs("pcsaft/gross2006.json", &["acetone", "n-butyl ethanoate"]);
+    polar4.extend(recs("pcsaft/gross2005_fit.json", &["carbon dioxide", "benzene"]));
+    // two dipolar components and one quadrupolar component (not touched by the known defect of the quadrupole pair term)
+    let mut polar3 = recs("pcsaft/gross2006.json", &["acetone", "n-butyl ethanoate"]);
+    polar3.extend(recs("pcsaft/gross2005_fit.json", &["benzene"]));
     for opt in 0..2 {
+        v.push(MSpec { name: format!("pcsaft/polar3/opt{}", opt), family: "PcSaft", records: polar3.clone(),
+            binary: vec![((0, 2), json!({"k_ij": 0.02}))], opt, tscale: 500.0 });
+        v.push(MSpec { name: format!("pcsaft/polar4/opt{}", opt), family: "PcSaft", records: polar4.clone(),
+            binary: vec![((0, 2), json!({"k_ij": 0.02})), ((1, 3), json!({"k_ij": -0.015}))], opt, tscale: 480.0 });
         v.push(MSpec { name: format!("pcsaft/4c/opt{}", opt), family: "PcSaft", records: pc4.clone(),
             binary: vec![((0, 1), json!({"k_ij": 0.03})), ((1, 2), json!({"k_ij": -0.02})), ((2, 3), json!({"k_ij": 0.01, "kappa_ab": 0.03, "epsilon_k_ab": 2700.0})), ((0, 3), json!({"k_ij": 0.015}))],
             opt, tscale: 450.0 });
